@@ -402,6 +402,19 @@ impl Session {
                 let mut v = dump_json(&d, &self.u, listing, ROOT);
                 v["pins"] = json!(self.iters.len());
                 v["nsnaps"] = json!(self.snaps.len());
+                // the same layout as the PUBLIC descriptors report it (C10 is stated about them)
+                match self.wd.call("get_descriptor", || crate::common::descriptor_view(db)) {
+                    Ok((nfl, sst)) => {
+                        v["nfl"] = json!(nfl);
+                        v["sst"] = json!(sst);
+                        v["descr"] = json!("ok");
+                    }
+                    Err(e) => {
+                        v["nfl"] = json!([]);
+                        v["sst"] = json!([]);
+                        v["descr"] = json!(e);
+                    }
+                }
                 self.emit("Dump", v);
                 true
             }
